@@ -1,6 +1,6 @@
 (** Correspondence and spec comparison for C06, evaluated by vm_compute on generated cases. *)
 From Coq Require Import ZArith List Bool.
-From V Require Import Csv.CsvModel Data.DataModel Harness.Cmp.
+From V Require Import Csv.CsvModel Data.DataModel Harness.Cmp Mgr.LinePass.
 Import ListNotations.
 Open Scope Z_scope.
 
@@ -54,3 +54,20 @@ Definition c06_spec (c : c06case) : bool :=
                      | None => forallb (fun v => match v with None => true | Some _ => false end) (snd pv)
                      end
        end) (combine (c_probes c) (c_vals c)).
+
+
+(** named-paths groups with a member that rewrites its own lines (Mgr/LinePass.v): what every member collected, against the model *)
+Record c06gcase := mkC06G {
+  g_kinds : list (rw ustring);                 (* the members, in group order *)
+  g_byline : bool;                             (* breadth-first run (else serial) *)
+  g_recs : list (list ustring);                (* the file's non-blank records *)
+  g_lines : list (list (list ustring))         (* implementation: per member, the lines it collected *)
+}.
+
+Definition c06g_model (q_share : bool) (c : c06gcase) : list (list (list ustring)) :=
+  if g_byline c
+  then let per_rec := byline_collected ustring q_share (g_kinds c) (g_recs c) in
+       map (fun k => map (fun pr => nth k pr []) per_rec) (seq 0 (length (g_kinds c)))
+  else map (fun r => map (alone ustring r) (g_recs c)) (g_kinds c).
+
+Definition c06g_agree (q_share : bool) (c : c06gcase) : bool := list_beq rows_beq (c06g_model q_share c) (g_lines c).
